@@ -112,7 +112,8 @@ def _job(args):
         joined = ffm.join_pmappings(copy.deepcopy(pm), metrics=M, print_progress=False)
         jc = joined.data.columns
         ret = [{"energy": mc._x(joined.data.iloc[i]["Total<SEP>energy"]) if "Total<SEP>energy" in jc else [0, 1],
-                "latency": mc._x(joined.data.iloc[i]["Total<SEP>latency"]) if "Total<SEP>latency" in jc else [0, 1]}
+                "latency": mc._x(joined.data.iloc[i]["Total<SEP>latency"]) if "Total<SEP>latency" in jc else [0, 1],
+                "cols": {c: mc._x(joined.data.iloc[i][c]) for c in jc if c.startswith("reservation<SEP>")}}
                for i in range(len(joined.data))]
         eb = {e: {str(k): int(v) for k, v in b.items()} for e, b in bounds.items()} if isinstance(next(iter(bounds.values())), dict) \
             else {e: {str(k): int(v) for k, v in bounds.items()} for e in tables}
@@ -207,6 +208,7 @@ def run(ck: Check):
                        "exhaustive_front": sorted(exp)[:6], "join_front": sorted(got)[:6],
                        "example_pmapping": case["P1"][-1]})
     capacity_part(ck)
+    general_part(ck)
 
 
 def canonical(nodes, bounds):
@@ -295,6 +297,81 @@ def capacity_part(ck):
     ck.extra["capacity_cases_where_capacity_binds"] = binding
     if binding == 0:
         raise Machinery("vacuity: capacity did not exclude a single compatible pair in any case")
+
+
+def general_part(ck):
+    """The full statement on real tables with any number of fused loops: compatible pairs (same storage, same loops
+    and tile shapes, a common loop order), objective sums, usage of the merged tree (FusedNest.MergedG + PeakF) as
+    capacity filter and as objective coordinate; front vs join_pmappings with ENERGY|LATENCY|RESOURCE_USAGE."""
+    from checks import c02, c06
+    thorough = ck.tier == "thorough"
+    rng = random.Random(ck.seed * 19 + 4242)
+    d = os.path.join(ck.work, "gen")
+    specs = []
+    for i in range(2 if not thorough else 8):
+        a, w, world = c06.chain_spec(rng, 2, glb_choices=(256, 512), bound_choices=(2, 4))
+        if i % 2 == 0:
+            # a long shared rank (m) against short ones: iteration counts of different fused loops differ
+            import re
+            mm = rng.choice([8, 16])
+            w = re.sub(r"m: 0 <= m < \d+", "m: 0 <= m < %d" % mm, w)
+            world["bound"]["m"] = mm
+        specs.append((a, w, world))
+    jobs = [(a, w, ("ENERGY", "LATENCY", "RESOURCE_USAGE"), d) for a, w, world in specs]
+    with ProcessPoolExecutor(4) as ex:
+        outs = list(ex.map(_job, jobs))
+    cases, meta = [], {}
+    for ji, (job, o) in enumerate(zip(jobs, outs)):
+        ck.evaluations += 1
+        if "exception" in o:
+            ck.impl_errors += 1
+            if ck.impl_error_sample is None:
+                ck.impl_error_sample = {"case": "gen %d" % ji, "traceback": o["exception"] + "\n" + o["traceback"]}
+            continue
+        world = specs[ji][2]
+        names = list(o["tables"])
+        sh = o["shared"][0]
+        P = []
+        for e in names:
+            rows = []
+            for r in o["tables"][e]:
+                obj = [mc.fr(r["energy"]), mc.fr(r["latency"])]
+                if any(x.denominator != 1 for x in obj):
+                    raise Machinery("non-integer objective in a pmapping row")
+                rows.append({"obj": [int(x) for x in obj], "nodes": canonical(r["nodes"], o["bounds"][e])})
+            P.append(rows)
+        cid = "gen%d" % ji
+        cases.append({"id": cid, "world": world, "sh": sh, "P1": P[0], "P2": P[1], "usagemems": ["GLB"]})
+        meta[cid] = (job, o, world)
+    if not cases:
+        raise Machinery("general part: no case recorded")
+    path = os.path.join(ck.work, "joinG_cases.json")
+    json.dump(cases, open(path, "w"))
+    res = ck.tlc("FusedNest", "FusedNest_joinG.cfg", env={"JOIN_FILE": path, "CASES_FILE": path}, coverage=False,
+                 workers=4, timeout=3000)
+    if not res.ok or len(res.records) != len(cases):
+        raise Machinery("FusedNest general join run failed: %s\n%s" % (res.violated, res.tail))
+    for v in res.records:
+        job, o, world = meta[v["id"]]
+        ck.traces += 1
+        size = world["size"]["GLB"]
+        exp = {tuple(x) for x in v["front"]}
+        got = set()
+        for r in o["ret"]:
+            u = c02.row_usage({"cols": r["cols"]}, "GLB") * size
+            got.add((int(mc.fr(r["energy"])), int(mc.fr(r["latency"])), int(u) if u.denominator == 1 else float(u)))
+        ck.count_nontrivial(("gen", v["id"]))
+        if exp != got:
+            miss, extra = sorted(exp - got)[:4], sorted(got - exp, key=str)[:4]
+            kind = "join-misses-front-point" if miss else "join-returns-point-not-on-exhaustive-front"
+            ck.violation("C13/general/%s" % kind,
+                         "spec %s (bounds %s, GLB %s bits): %d compatible pairs, %d fit; exhaustive (energy, latency, GLB bits) "
+                         "front has %d points, join_pmappings returned %d; missing %s, extra %s"
+                         % (v["id"], world["bound"], size, v["pairs"], v["valid"], len(exp), len(got), miss, extra),
+                         {"arch": job[0], "workload": job[1], "metrics": job[2], "kind": "general", "world": world})
+        if len(ck.samples) < 6:
+            ck.sample({"case": v["id"], "bounds": world["bound"], "compatible_pairs": v["pairs"], "pairs_that_fit": v["valid"],
+                       "front_points": len(exp), "example": sorted(exp)[:4]})
 
 
 def replay(path):
